@@ -392,7 +392,7 @@ func genScenario(t *rapid.T) sim.BScenario {
 	if rapid.IntRange(0, 2).Draw(t, "pins") == 0 {
 		sc.Pins = append(sc.Pins, sim.Pin{Site: rapid.SampledFrom([]string{"cli.send.lock", "cli.deliver.lock", "srv.deliver.lock", "srv.read.recv", "cli.wait.lock", "srv.dispatch.run"}).Draw(t, "site"), Delay: rapid.SampledFrom([]int{1, 50, 9000}).Draw(t, "delay")})
 	}
-	ids := []string{"1", "1", "1", `"1"`, "7", "1.5", `"x"`, "0", "-0", `""`, "12345678901234567890", "1e2"}
+	ids := []string{"1", "1", "1", `"1"`, "7", "1.5", `"x"`, "0", "-0", `""`, "12345678901234567890", "1e2", `"50%"`, `"%s"`, `"a%db%v"`}
 	nreq := rapid.IntRange(1, 6).Draw(t, "nreq")
 	k := 0
 	var pending []int
@@ -443,7 +443,7 @@ func genScenario(t *rapid.T) sim.BScenario {
 				}
 			default:
 				k++
-				method := rapid.SampledFrom([]string{"gate", "gate", "ret", "err"}).Draw(t, "method")
+				method := rapid.SampledFrom([]string{"gate", "gate", "ret", "err", "rpcret"}).Draw(t, "method")
 				params := fmt.Sprintf(`{"k":%d}`, k)
 				if method == "err" {
 					params = fmt.Sprintf(`{"k":%d,"c":%d}`, k, rapid.SampledFrom([]int{-32000, 7, -32601}).Draw(t, "code"))
